@@ -22,7 +22,7 @@ META = {
                    "the species as placed, a ValueError is raised' is never triggered wrongly by this mechanism)",
     "bounds": {"quick": "r reactants x p products x c composition keys with r+p <= 4, c <= 3 (charge + 2 elements); element counts in [0,3], "
                         "charge in [-2,2] (real-valued superset)",
-               "thorough": "r+p <= 5"},
+               "thorough": "r+p <= 6 (c = 2) / r+p <= 5 (c = 3)"},
     "assumptions": [
         "every composition key has a non-zero entry in at least one species (the parser never produces all-zero keys)",
         "stub: sympy.MutableDenseMatrix raises a sentinel - the code after the pre-check (linsolve, Wild/gcd normalisation, PuLP/CBC, "
@@ -124,5 +124,5 @@ def task_shape(r, p, c):
 def tasks(tier, seed):
     shapes = [(1, 1, 2), (1, 2, 2), (2, 1, 2), (2, 2, 2), (1, 2, 3), (2, 1, 3), (1, 3, 2), (3, 1, 2), (2, 2, 3)]
     if tier == "thorough":
-        shapes += [(1, 3, 3), (3, 1, 3), (2, 3, 2), (3, 2, 2)]
+        shapes += [(1, 3, 3), (3, 1, 3), (2, 3, 2), (3, 2, 2), (2, 3, 3), (3, 2, 3), (1, 4, 2), (4, 1, 2), (3, 3, 2)]
     return [dict(id="C02.precheck.r%dp%dc%d" % s, fn="task_shape", kwargs=dict(r=s[0], p=s[1], c=s[2]), timeout=1800) for s in shapes]
